@@ -127,6 +127,89 @@ def run(chk):
         chk.ok("C10.limits.config", mt[0], "trailer budget = max_headers - header lines of this message")
     else:
         chk.violation("C10.limits.config", hp, "max_trailers = self.max_headers - len(self._lines)", "trailer budget", "the number of trailer fields is not bounded by the header budget")
+    hunt3_rules(chk, repo, hp)
+
+
+def hunt3_rules(chk, repo, hp):
+    """Rules written after the third defect hunt (F184-F186)."""
+    from sa.dtable import Evaluator
+    # ---- C10.limits.config: every client response parser is configured with the session's limits ----------------------------------------------
+    LIM = ("max_line_size", "max_field_size", "max_headers")
+    n = 0
+    for m in repo.all_modules():
+        if m.rel.endswith(("test_utils.py", "pytest_plugin.py")):
+            continue
+        for fn in m.functions.values():
+            for c in prog.calls_in(fn.node):
+                if not (isinstance(c.func, ast.Attribute) and c.func.attr == "set_response_params"):
+                    continue
+                n += 1
+                kws = {k.arg for k in c.keywords}
+                if any(k.arg is None and norm.raw(k.value).endswith("._response_params") for k in c.keywords) or all(l in kws for l in LIM):
+                    chk.ok("C10.limits.config", c, f"{fn.qualname}: the response parser gets the request's max_line_size / max_field_size / max_headers")
+                else:
+                    chk.violation("C10.limits.config", c, K.short(c, 60), ", ".join(l for l in LIM if l not in kws),
+                                  f"{fn.qualname} configures a response parser without the session's limits: the answer of the proxy to CONNECT is parsed with the built-in 8190 / 128 whatever max_line_size / max_field_size / max_headers the session was given")
+    chk.expect_count("C10.limits.config", n, 2, "set_response_params() call sites")
+    # ---- C10.total.leadcrlf: the blank line before a start line is skipped in both line disciplines --------------------------------------------
+    skip = [i for i in ast.walk(hp.node) if isinstance(i, ast.If) and i.body and isinstance(i.body[-1], ast.Continue) and "self._lines" in norm.raw(i.test) and M.contains(i.test, "pos == start_pos")]
+    if not skip:
+        chk.analysis_error("C10.total.leadcrlf: the blank-line skip (`if ... pos == start_pos ...: continue`) of HttpParser.feed_data was not found")
+    else:
+        t = skip[0].test
+        calls = {norm.raw(c) for c in ast.walk(t) if isinstance(c, ast.Call)}
+        rows = {}
+        try:
+            # strict: lines end in CRLF, blank line <=> pos == start_pos.  lax: lines end in LF, a blank CRLF line has pos == start_pos + 1
+            for name, env in (("strict CRLF", {"SEP": b"\r\n", "pos": 0, "crlf": True}), ("lax LF", {"SEP": b"\n", "pos": 0, "crlf": False}), ("lax CRLF", {"SEP": b"\n", "pos": 1, "crlf": True}),
+                              ("lax text", {"SEP": b"\n", "pos": 16, "crlf": False}), ("strict text", {"SEP": b"\r\n", "pos": 15, "crlf": False})):
+                e = {"self._lines": [], "start_pos": 0, "SEP": env["SEP"], "pos": env["pos"], "data_len": 40}
+                for c in calls:
+                    if "startswith" in c and "\\r\\n" in c:
+                        e[c] = env["crlf"]
+                rows[name] = bool(Evaluator(e).ev(t))
+        except AnalysisError as ex:
+            rows = {"error": str(ex)}
+        want = {"strict CRLF": True, "lax LF": True, "lax CRLF": True, "lax text": False, "strict text": False}
+        if rows == want:
+            chk.ok("C10.total.leadcrlf", skip[0], "feed_data(): a blank line before the start line is skipped whether lines are split at CRLF (strict) or at LF (lax, CR left in the line)")
+        elif "error" in rows:
+            chk.analysis_error(f"C10.total.leadcrlf: the blank-line skip test could not be evaluated: {rows['error']}")
+        else:
+            chk.violation("C10.total.leadcrlf", skip[0], K.short(skip[0], 70), "or (SEP == b'\\n' and data.startswith(b'\\r\\n', start_pos))",
+                          f"blank-line skip by line discipline {rows}: the lax response parser splits at LF, so the CRLF a server sends before its status line leaves `\\r` as the start line - BadStatusLine for a response the strict parser and RFC 9112 2.2 accept")
+    # ---- C10.total.lower: str.lower() is compared with a coding / token name only on ASCII text --------------------------------------------
+    mod = repo.module(MOD)
+    nl = 0
+    for fn in mod.functions.values():
+        for cmpn in [c for c in ast.walk(fn.node) if isinstance(c, ast.Compare)]:
+            left = cmpn.left
+            if not (isinstance(left, ast.Call) and isinstance(left.func, ast.Attribute) and left.func.attr == "lower" and not left.args):
+                continue
+            subj = norm.raw(left.func.value)
+            if subj in ("name",) and fn.qualname.endswith("parse_headers"):
+                continue  # field names matched the token grammar (ASCII) before they get here
+            nl += 1
+            asc = f"{subj}.isascii()"
+            ok = False
+            cur = cmpn
+            while getattr(cur, "parent", None) is not None and not isinstance(cur, ast.stmt):
+                par = cur.parent
+                if isinstance(par, ast.BoolOp) and isinstance(par.op, ast.And) and any(norm.raw(v) == asc for v in par.values[: par.values.index(cur)]):
+                    ok = True
+                if isinstance(par, ast.comprehension) and any(asc in norm.raw(i) for i in par.ifs):
+                    ok = True
+                if isinstance(par, (ast.GeneratorExp, ast.ListComp, ast.SetComp)) and any(asc in norm.raw(i) for g_ in par.generators for i in g_.ifs):
+                    ok = True
+                cur = par
+            if not ok and isinstance(cur, ast.stmt) and any(l.pos and l.text == asc for l in PC.units(PC.pc(cur, raw=True))):
+                ok = True
+            if ok:
+                chk.ok("C10.total.lower", cmpn, f"{fn.qualname}: `{K.short(cmpn, 50)}` only after {asc}")
+            else:
+                chk.violation("C10.total.lower", cmpn, K.short(cmpn, 60), asc + " and ...",
+                              f"{fn.qualname} lower-cases a header token before comparing it: str.lower() maps some non-ASCII characters to ASCII (KELVIN SIGN U+212A -> `k`), so `chun\u212aed` is taken for `chunked` here while every other HTTP implementation sees an unknown coding")
+    chk.expect_count("C10.total.lower", nl, 5, "comparisons of <token>.lower() in http_parser.py")
 
 
 def _len_gt(lit, subject: str) -> bool:
